@@ -528,6 +528,8 @@ def ma_filled(a, fill_value=None):
 
 def ma_getmaskarray(a):
     if isinstance(a, MaskedArray):
+        if a._mask is not None:
+            return a._mask          # numpy hands out the array's own mask (no copy)
         return _new(a.maskcells(), a.shape, 'b')
     a = _as_nd(a)
     return _new([S._F()] * a.size, a.shape, 'b')
@@ -733,6 +735,12 @@ def apply():
     M.ones_like = lambda a: ma_ones(a.shape, a.kind)
     M.stack, M.vstack, M.concatenate = ma_stack, ma_vstack, ma_concatenate
     M.compressed = ma_compressed
+    M.squeeze = lambda a, axis=None: a.squeeze()
+    M.ravel = lambda a: a.ravel()
+    M.reshape = lambda a, s_: a.reshape(s_)
+    M.transpose = lambda a, axes=None: a.transpose(*([axes] if axes is not None else []))
+    M.copy = lambda a: a.copy()
+    M.shape, M.size, M.ndim = N.shape, N.size, N.ndim
     M.make_mask, M.make_mask_none = ma_make_mask, lambda shape, dtype=None: np_zeros(shape, 'b')
     M.add, M.subtract, M.multiply = N.add, N.subtract, N.multiply
     M.divide = M.true_divide = N.true_divide
